@@ -44,7 +44,9 @@ def observe(arg):
 
         a, b = A(), B()
         tvm = {U.TYPEVARS[n]: codec.term_to_value(v) for n, v in MAPS[t["m"]].items()}
-        tt = codec.value_to_term
+        def tt(v):
+            return codec.value_to_term(v, dictinc=True)
+
         u_ab, u_ba, u_aa = unite_values(A(), B()), unite_values(B(), A()), unite_values(A(), A())
         u_ab_c, u_a_bc = unite_values(unite_values(A(), B()), C()), unite_values(A(), unite_values(B(), C()))
         u_an, u_na = unite_values(A(), NO_RETURN_VALUE), unite_values(NO_RETURN_VALUE, A())
@@ -105,8 +107,9 @@ def run(check: core.Check) -> None:
     quick = check.tier == "quick"
     rnd = random.Random(check.seed)
     check.assumptions += [
-        "38 terms (literals incl. unhashable ones, typed, generic, sequence, subclass, newtype, typevars, unions incl. "
-        "permuted and nested ones) x 6 type-variable maps; TypedDict / callable / annotated values are not in the space yet",
+        "49 terms (literals incl. unhashable ones, typed, generic, sequence, subclass, newtype, typevars, unions incl. "
+        "permuted and nested ones, TypedDict values incl. read-only / non-required generic entries, dict displays with "
+        "optional and unpacked entries) x 6 type-variable maps; callable / annotated values are not in the space yet",
     ]
     res = core.require_ok(core.run_tlc("Algebra", "Algebra.quick.cfg", timeout=3400), "Algebra exhaustive")
     check.add_tlc("exhaustive:Algebra.quick.cfg", res)
